@@ -7,9 +7,16 @@
    (every RPC x every field x boundary / pathological value, singly and in mixed streams; euclidean and cosine),
    census after every step, liveness probe after every refusal, restarts; direct oracles over observations
 4. every answer + follow-up census is compared with Model/Requests.v inside coqc (vm_compute)
-Known input classes (classified by the driver on the specific observation):
-  C15-bulk-search-aborts-stream-on-invalid-item   a BulkSearch stream with a refused request: the valid requests
-                                                  after it (and, through tonic's buffering, before it) get no answer
+Input classes (classified by the driver on the specific observation):
+  C15-bulk-search-aborts-stream-on-invalid-item   a BulkSearch stream within the batch limit whose messages all
+        decode, and some request gets no answer / the stream is ended by a status.  REPAIRED in /repo b58b923
+        (`fixed:` entry of known_findings.json): always a plain VIOLATION here, no known-findings lookup;
+        corpus/C15/bulk-search-abort.json is its regression script.
+  C15-bulk-search-call-status-drops-accepted-answers   a stream the server ends with a CALL-level status
+        (a message that does not decode -> INTERNAL; more than MAX_BATCH_SIZE requests -> RESOURCE_EXHAUSTED):
+        answers of requests accepted before that point are missing (pending batch not flushed before a decode
+        failure; tonic drops buffered Ok items that precede an Err).  Coordinator ruling: the call-level status
+        is the answer; counted NOTE in the evidence, not a violation.
 """
 import json
 import os
@@ -19,14 +26,17 @@ THEOREMS = {"Properties.C15": [
     "C15_total", "C15_boundary_insert", "C15_boundary_search", "C15_boundary_filter_depth", "C15_boundary_ids",
     "C15_boundary_batches", "C15_refused_no_effect", "C15_refused_item_no_effect", "C15_reads_no_effect",
     "C15_bulk_load_cap_partial_effect_refuted", "C15_nonfinite_refused_everywhere", "C15_validators_sound",
-    "C15_bulk_search_answered_partial", "C15_bulk_search_abort_refuted", "C15_nonvacuous"]}
+    "C15_bulk_search_answered", "C15_bulk_search_terminated", "C15_bulk_search_abort_before_b58b923_example",
+    "C15_nonvacuous"]}
 PINS = {"Properties.C15": {
     "_preamble": "From Coq Require Import List NArith Bool. From Kyro Require Import Model.ReqBase gen.Validators_gen Model.Requests Proofs.RequestsProofs. Import ListNotations. Open Scope N_scope.",
     "C15_total": "forall cfg ds r, no_crash (snd (handle cfg ds r)) = true",
     "C15_refused_no_effect": "forall cfg ds r ds' c, handle cfg ds r = (ds', Refused c) -> (forall its, r = RBulkLoad its -> len its <= c_max_total_load cfg) -> ds' = ds",
+    "C15_bulk_search_answered": "forall cfg ds rs, len rs <= c_max_batch cfg -> all_decodable cfg rs = true -> exists items, handle cfg ds (RBulkSearch rs) = (ds, OkBulkSearch items None) /\\ List.length items = List.length rs /\\ (forall i r, nth_error rs i = Some r -> nth_error items i = Some (search_item cfg (filter (engine_bad cfg) rs) r)) /\\ (forall r bad s, validate_search_request (sview r) = VErr s -> search_item cfg bad r = SErr InvalidArgument) /\\ (forall r bad p, validate_search_request (sview r) = VOk p -> group_err cfg r bad = None -> search_item cfg bad r = SOk)",
     "C15_nonfinite_refused_everywhere": "forall cfg (it : item), nf (v_cls (i_vec it)) = true -> (forall ds, h_insert cfg ds it = (ds, Refused InvalidArgument)) /\\ (forall a, bi_ds (bi_step cfg a it) = bi_ds a /\\ bi_ins (bi_step cfg a it) = bi_ins a) /\\ (forall ds c id, cold_load_one cfg (ds, c) (id, it) = (ds, (fst c, snd c + 1))) /\\ tiered_insert_ok cfg (v_cls (i_vec it)) = false /\\ direct_cold_insert_ok cfg (v_cls (i_vec it)) = false",
 }}
-KNOWN_IDS = ["C15-bulk-search-aborts-stream-on-invalid-item"]
+ABORT_CLASS = "C15-bulk-search-aborts-stream-on-invalid-item"
+CALL_STATUS_CLASS = "C15-bulk-search-call-status-drops-accepted-answers"
 GEN_REPORT = os.path.join(vlib.CACHE, "gen", "Validators_gen.json")
 
 
@@ -142,7 +152,7 @@ def run(ctx):
         "histogram": summ["histogram"], "limits_read_from_source": summ["limits"], "samples": summ["samples"][:2],
         "model_steps_evaluated_in_coq": steps, "model_disagreements": len(bad),
         "oracle_failures": len(summ["oracle_failures"]),
-        "known_class_observations": {k: sum(1 for h in known if h["class"] == k) for k in sorted({h["class"] for h in known})},
+        "class_observations": {k: sum(1 for h in known if h["class"] == k) for k in [ABORT_CLASS, CALL_STATUS_CLASS]},
         "translator": None if not rep else {k: rep.get(k) for k in ("ok", "functions", "constants", "division_sites", "multiplication_sites")},
         "avg_server_startup_s": round(summ["avg_server_startup_s"], 3), "slowest_step_ms": summ["slowest_step_ms"],
     })
@@ -167,18 +177,16 @@ def run(ctx):
         by_class.setdefault(h["class"], []).append(h)
     for cls, hits in sorted(by_class.items()):
         h = hits[0]
-        detail = "%d stream(s) this run; e.g. %s step %s %s: %s requests sent, %s Ok answers, terminating status %s, %s request(s) without any answer; minimal script re-run on a fresh server: %s" % (
-            len(hits), h["script"], h["step"], "/".join(h["label"]), h["requests_sent"], h["ok_answers"], h["terminating_status"],
-            h["unanswered"], json.dumps(summ.get("known_class_confirmation"))[:300])
-        f = ctx.classify_known(cls) if cls in KNOWN_IDS else None
-        if f:
-            ctx.known_hit(f, detail)
-        else:
-            ctx.violation({"property": "C15", "kind": "oracle", "class": cls,
-                           "why": "a BulkSearch stream that contains one refused request: the valid requests of the stream get no answer at all (the response stream carries a single error status); 'every request gets an answer ... or a per-item failure' fails for them",
-                           "observed": {k: h[k] for k in ("requests_sent", "ok_answers", "terminating_status", "unanswered", "label")},
-                           "occurrences_this_run": len(hits), "confirmed_on_fresh_server": summ.get("known_class_confirmation"),
-                           "case": h["case"], "replay_cmd": "./check C15 --replay <this file>"})
+        if cls == CALL_STATUS_CLASS:
+            ctx.notes.append("%s (note, not a violation by ruling: a stream the server ends with a call-level status is answered by that status): %d stream(s) this run; e.g. %s step %s %s: %s requests sent, %s accepted before the terminating %s, %s items received, %s accepted request(s) without an item" % (
+                cls, len(hits), h["script"], h["step"], "/".join(h["label"]), h["requests_sent"], h.get("accepted_before_the_status"),
+                h["terminating_status"], h["items_received"], h["unanswered"]))
+            continue
+        ctx.violation({"property": "C15", "kind": "oracle", "class": cls,
+                       "why": "a BulkSearch stream within the batch limit whose messages all decode: not every request got exactly one answer (a request without any answer, or the stream ended by a status); 'every request gets an answer ... or a per-item failure' fails (regression of /repo b58b923)",
+                       "observed": {k: h.get(k) for k in ("requests_sent", "items_received", "terminating_status", "unanswered", "label")},
+                       "occurrences_this_run": len(hits), "confirmed_on_fresh_server": summ.get("known_class_confirmation"),
+                       "case": h["case"], "replay_cmd": "./check C15 --replay <this file>"})
     if coq_err:
         broken.append({"kind": "cases-evaluation-error", "detail": coq_err[:2]})
     if bad:
